@@ -419,7 +419,7 @@ pub fn forged_doc(req: &SentReq) -> Value {
 /// chosen mutation does not apply to this document.
 pub fn byzantine(doc: &mut Value, which: u64) -> Option<String> {
     let resp = doc.get_mut("response")?;
-    match which % 16 {
+    match which % 18 {
         0 => {
             let o = doc.as_object_mut()?;
             o.remove("response")?;
@@ -523,7 +523,7 @@ pub fn byzantine(doc: &mut Value, which: u64) -> Option<String> {
                     .and_then(|p| p.first_mut())
                 {
                     let o = p.as_object_mut()?;
-                    return match which % 16 {
+                    return match which % 18 {
                         13 => {
                             o.insert("size".into(), json!(-1));
                             Some("negative size".into())
@@ -537,6 +537,16 @@ pub fn byzantine(doc: &mut Value, which: u64) -> Option<String> {
                             Some("string required".into())
                         }
                     };
+                }
+            }
+            None
+        }
+        16 | 17 => {
+            for a in resp.get_mut("app")?.as_array_mut()? {
+                if let Some(m) = a.get_mut("updatecheck").and_then(|u| u.get_mut("manifest")) {
+                    let k = if which % 18 == 16 { "actions" } else { "packages" };
+                    m.as_object_mut()?.remove(k)?;
+                    return Some(format!("remove manifest {k}"));
                 }
             }
             None
@@ -663,12 +673,13 @@ pub fn deliver(w: &mut World, id: u64, label: &str) {
         let mut d = gen_doc(w, label, &req);
         grammatical = Some(true);
         if fault == 12 {
-            let which = w.draws.draw(&format!("{label}/byz"), 16);
+            let which = w.draws.draw(&format!("{label}/byz"), 18);
             if byzantine(&mut d, which).is_some() {
                 grammatical = Some(false);
             }
         }
-        body = serde_json::to_vec(&d).unwrap();
+        // compact or pretty-printed (multi-line) serialisation
+        body = if w.draws.draw(&format!("{label}/pretty"), 4) == 3 { serde_json::to_vec_pretty(&d).unwrap() } else { serde_json::to_vec(&d).unwrap() };
         let xssi = w.profile.srv.xssi_prefix_permille;
         if w.draws.chance(&format!("{label}/xssi"), xssi) {
             let mut b = b")]}'\n".to_vec();
